@@ -43,12 +43,13 @@ def M1(ctx: Ctx) -> RuleResult:
                     key = f'{fname}:setattr({tgt},{attr})'
                     if fi is not None and fi.name == '__attrs_post_init__' and fi.cls is not None and tgt == 'self' and fsrc == 'object.__setattr__':
                         r.ok(f'{fname}: object.__setattr__(self, {attr}) during construction')
-                    elif fi is not None and fi.qualname == 'HplExpression._type_check' and fsrc == 'object.__setattr__' and _under_if(fi.node, node, 'force') and attr == "'data_type'":
+                    elif fi is not None and fi.cls is not None and fi.cls.name == 'HplExpression' and fi.name.startswith('_') and fsrc == 'object.__setattr__' and attr == "'data_type'":
+                        # the narrowing primitive: who reaches it, and for which value, is decided by the forcing-site analysis below
                         params = fi.params()
-                        if len(params) > 1 and tgt == params[1]:
-                            r.ok('HplExpression._type_check: narrows the checked child under force')
+                        if tgt in params[1:]:
+                            r.ok(f'{fname}: narrows the checked child (reached only as the forcing-site analysis allows)')
                         else:
-                            r.fail(key, f'_type_check writes to {tgt}, not to the expression being checked', where)
+                            r.fail(key, f'{fi.name} writes to {tgt}, not to the expression being checked', where)
                     else:
                         r.fail(key, f'{fsrc}({tgt}, {attr}, ...) outside the two sanctioned sites: an existing AST object is modified', where)
             if isinstance(node, (ast.Assign, ast.AugAssign, ast.AnnAssign, ast.Delete)):
@@ -61,51 +62,208 @@ def M1(ctx: Ctx) -> RuleResult:
                 par = _enclosing(ctx, mod, node)
                 r.fail(f'{par.qualname if par else mod.name}:__dict__', 'direct __dict__ access bypasses frozen attrs classes', f'{mod.relpath}:{node.lineno}')
     r.floor('setattr sites', n_sites, 5)
-    # forcing sites
-    n_force = 0
-    for mod in ctx.model.modules.values():
-        for node in ast.walk(mod.tree):
-            if isinstance(node, ast.Call) and any(kw.arg == 'force' and not (isinstance(kw.value, ast.Constant) and kw.value.value is False) for kw in node.keywords):
-                fsrc = ast.unparse(node.func)
-                fi = _enclosing(ctx, mod, node)
-                where = f'{mod.relpath}:{node.lineno}'
-                fname = fi.qualname if fi else '<class body>'
-                if fsrc == '_type_checker':
-                    n_force += 1
-                    ty = ast.unparse(node.args[0]) if node.args else '?'
-                    if fi is None and ty.startswith('DataType.'):
-                        r.ok(f'_type_checker({ty}, force=True) as a field validator')
-                    else:
-                        r.fail(f'{fname}:_type_checker', f'_type_checker(force) used outside a field declaration or with a non-constant type {ty}', where)
-                elif fsrc.endswith('._type_check'):
-                    kwv = [kw.value for kw in node.keywords if kw.arg == 'force'][0]
-                    if isinstance(kwv, ast.Name) and fi is not None and (kwv.id in fi.params() or kwv.id in [a.arg for a in fi.node.args.kwonlyargs]):
-                        # pass-through of the validator factory's own `force` parameter
-                        n_force += 1
-                        r.ok(f'{fi.qualname}: passes its force parameter through (validator factory)')
-                        continue
-                    n_force += 1
-                    ok = False
-                    why = ''
-                    if fi is not None and fi.cls is not None and any(fi.name in v for v in fi.cls.validators.values()):
-                        params = fi.params()
-                        val = params[2] if len(params) > 2 else None
-                        a0 = ast.unparse(node.args[0]) if node.args else None
-                        ty = ast.unparse(node.args[1]) if len(node.args) > 1 else '?'
-                        if a0 != val:
-                            why = f'forces {a0}, which is not the value being validated ({val})'
-                        elif not (ty.startswith('DataType.') or ty.startswith('self.operator.parameter')):
-                            why = f'forces the child to {ty}, which is not a fixed parameter type (another node\'s type would narrow caller-owned nodes)'
-                        else:
-                            ok = True
-                    else:
-                        why = 'force=True outside an attrs field validator: narrows an already constructed (possibly shared) child in place'
-                    if ok:
-                        r.ok(f'{fname}: forces its own argument to a fixed parameter type')
-                    else:
-                        r.fail(f'{fname}:force', why, where)
+    n_force = _forcing_sites(ctx, r)
     r.floor('forcing sites', n_force, 4)
     return r
+
+
+class _Unit:
+    """a function body analysed for in-place narrowing: a method, a module function, or a closure nested in one"""
+
+    def __init__(self, fi: FunctionInfo, node: ast.AST, outer: Optional['_Unit'] = None):
+        self.fi, self.node, self.outer = fi, node, outer
+        a = node.args
+        self.params = [x.arg for x in a.posonlyargs + a.args]
+        self.kwonly = [x.arg for x in a.kwonlyargs]
+        self.is_method = outer is None and fi.cls is not None and fi.kind not in ('staticmethod',)
+        self.writes: Dict[str, object] = {}   # parameter -> 'always' | ('flag', name)
+
+    @property
+    def name(self) -> str:
+        return self.node.name
+
+    def value_params(self) -> List[str]:
+        ps = list(self.params)
+        if (self.is_method or (self.outer is not None and ps and ps[0] == 'self')) and ps:
+            ps = ps[1:]
+        return ps
+
+    def free_flags(self) -> List[str]:
+        return (self.outer.params + self.outer.kwonly) if self.outer is not None else []
+
+    def own_nodes(self):
+        """nodes of this body, not those of nested function definitions"""
+        todo = [n for n in self.node.body if not isinstance(n, (ast.FunctionDef, ast.AsyncFunctionDef))]
+        while todo:
+            n = todo.pop()
+            yield n
+            for ch in ast.iter_child_nodes(n):
+                if not isinstance(ch, (ast.FunctionDef, ast.AsyncFunctionDef, ast.Lambda)):
+                    todo.append(ch)
+
+
+def _site_cond(u: _Unit, target: ast.AST):
+    """'always', or ('flag', name) when the node sits in the body of `if <flag parameter>:`"""
+    flags = set(u.params + u.kwonly + u.free_flags())
+    for node in u.own_nodes():
+        if isinstance(node, ast.If) and isinstance(node.test, ast.Name) and node.test.id in flags:
+            if any(target is x for b in node.body for x in ast.walk(b)):
+                return ('flag', node.test.id)
+    return 'always'
+
+
+def _forcing_sites(ctx: Ctx, r: RuleResult) -> int:
+    """In-place narrowing (object.__setattr__(<parameter>, 'data_type', ...)) is followed through helper calls to the
+    sites that decide to narrow: those must be attrs field validators narrowing the value they validate to a fixed
+    parameter type, or field declarations using the validator factory with a constant type."""
+    units: List[_Unit] = []
+    for fi in ctx.model.all_functions():
+        u = _Unit(fi, fi.node)
+        units.append(u)
+        for n in ast.walk(fi.node):
+            if isinstance(n, ast.FunctionDef) and n is not fi.node:
+                units.append(_Unit(fi, n, u))
+    by_name: Dict[str, List[_Unit]] = {}
+    for u in units:
+        by_name.setdefault(u.name, []).append(u)
+    # primitive writes
+    for u in units:
+        for n in u.own_nodes():
+            if isinstance(n, ast.Call) and ast.unparse(n.func) in ('object.__setattr__', 'setattr') and len(n.args) >= 2 and ast.unparse(n.args[1]) == "'data_type'":
+                tgt = n.args[0]
+                if isinstance(tgt, ast.Name) and tgt.id in u.value_params():
+                    u.writes[tgt.id] = _merge(u.writes.get(tgt.id), _site_cond(u, n))
+
+    def bind(call: ast.Call, g: _Unit) -> Dict[str, ast.expr]:
+        ps = g.value_params() if isinstance(call.func, ast.Attribute) or g.outer is not None or not g.is_method else g.params
+        m: Dict[str, ast.expr] = {}
+        for pname, a in zip(ps, call.args):
+            m[pname] = a
+        for kw in call.keywords:
+            if kw.arg:
+                m[kw.arg] = kw.value
+        return m
+
+    def callee_units(call: ast.Call) -> List[_Unit]:
+        f = call.func
+        nm = f.attr if isinstance(f, ast.Attribute) else f.id if isinstance(f, ast.Name) else None
+        return [g for g in by_name.get(nm, []) if g.outer is None] if nm else []
+
+    def effective(u: _Unit, call: ast.Call, g: _Unit, q: str, args: Dict[str, ast.expr]):
+        """condition under which this call writes through g's parameter q; None when it cannot"""
+        cq = g.writes[q]
+        sc = _site_cond(u, call)
+        if cq == 'always':
+            return sc
+        fa = args.get(cq[1])
+        if fa is None or (isinstance(fa, ast.Constant) and not fa.value):
+            return None
+        if isinstance(fa, ast.Constant):
+            return sc
+        if isinstance(fa, ast.Name) and fa.id in u.params + u.kwonly + u.free_flags():
+            return ('flag', fa.id)
+        return sc
+    changed = True
+    rounds = 0
+    while changed and rounds < 10:
+        changed = False
+        rounds += 1
+        for u in units:
+            for n in u.own_nodes():
+                if not isinstance(n, ast.Call):
+                    continue
+                for g in callee_units(n):
+                    if not g.writes or g is u:
+                        continue
+                    args = bind(n, g)
+                    for q in list(g.writes):
+                        a = args.get(q)
+                        if isinstance(a, ast.Name) and a.id in u.value_params():
+                            eff = effective(u, n, g, q, args)
+                            if eff is None:
+                                continue
+                            new = _merge(u.writes.get(a.id), eff)
+                            if u.writes.get(a.id) != new:
+                                u.writes[a.id] = new
+                                changed = True
+    # factories: a closure that narrows its own argument under a flag of the enclosing function
+    factories: Dict[str, Tuple[_Unit, str]] = {}
+    for u in units:
+        if u.outer is not None and u.writes:
+            for pname, cond in u.writes.items():
+                if isinstance(cond, tuple) and cond[1] in u.free_flags():
+                    factories[u.outer.name] = (u.outer, cond[1])
+                elif cond == 'always':
+                    factories[u.outer.name] = (u.outer, '')
+    n_force = 0
+
+    def is_validator(u: _Unit) -> bool:
+        return u.outer is None and u.fi.cls is not None and any(u.name in v for v in u.fi.cls.validators.values())
+
+    def fixed_type(src: str) -> bool:
+        return src.startswith('DataType.') or src.startswith('self.operator.parameter')
+    for u in units:
+        where_u = u.fi.qualname + ('.' + u.name if u.outer is not None else '')
+        for n in u.own_nodes():
+            if not isinstance(n, ast.Call):
+                continue
+            for g in callee_units(n):
+                if not g.writes or g is u:
+                    continue
+                args = bind(n, g)
+                for q in g.writes:
+                    eff = effective(u, n, g, q, args)
+                    if eff is None:
+                        continue
+                    a = args.get(q)
+                    where = f'{u.fi.module.relpath}:{n.lineno}'
+                    asrc = ast.unparse(a) if a is not None else '?'
+                    others = [ast.unparse(v) for k, v in args.items() if k != q and not (isinstance(g.writes[q], tuple) and k == g.writes[q][1])]
+                    ty = others[0] if others else '?'
+                    n_force += 1
+                    if u.outer is not None and isinstance(a, ast.Name) and a.id in u.value_params():
+                        r.ok(f'{where_u}: validator closure narrows its own argument ({eff if eff != "always" else "always"})')
+                    elif is_validator(u):
+                        val = u.params[2] if len(u.params) > 2 else None
+                        if asrc != val:
+                            r.fail(f'{where_u}:force', f'forces {asrc}, which is not the value being validated ({val})', where)
+                        elif not fixed_type(ty):
+                            r.fail(f'{where_u}:force', f'forces the child to {ty}, which is not a fixed parameter type (another node\'s type would narrow caller-owned nodes)', where)
+                        else:
+                            r.ok(f'{where_u}: forces its own argument to a fixed parameter type')
+                    elif isinstance(a, ast.Name) and a.id in u.value_params():
+                        if u.name.startswith('_') and not (u.name.startswith('__') and u.name.endswith('__')):
+                            r.ok(f'{where_u}: passes its own parameter on to {g.name} (private helper, condition {eff})')
+                        else:
+                            r.fail(f'{where_u}:force', f'the public method {u.name} narrows its argument {asrc} in place: any caller can modify an already constructed (possibly shared) node', where)
+                    else:
+                        r.fail(f'{where_u}:force', 'force=True outside an attrs field validator: narrows an already constructed (possibly shared) child in place', where)
+    # uses of the validator factories
+    for mod in ctx.model.modules.values():
+        for node in ast.walk(mod.tree):
+            if isinstance(node, ast.Call) and isinstance(node.func, ast.Name) and node.func.id in factories:
+                fac, flag = factories[node.func.id]
+                kw = {k.arg: k.value for k in node.keywords if k.arg}
+                pos = dict(zip(fac.params, node.args))
+                fa = kw.get(flag, pos.get(flag)) if flag else ast.Constant(True)
+                if fa is None or (isinstance(fa, ast.Constant) and not fa.value):
+                    continue
+                n_force += 1
+                fi = _enclosing(ctx, mod, node)
+                where = f'{mod.relpath}:{node.lineno}'
+                ty = ast.unparse(node.args[0]) if node.args else '?'
+                fname = fi.qualname if fi else '<class body>'
+                if fi is None and ty.startswith('DataType.') and isinstance(fa, ast.Constant):
+                    r.ok(f'{node.func.id}({ty}, {flag}=True) as a field validator')
+                else:
+                    r.fail(f'{fname}:{node.func.id}', f'{node.func.id}(force) used outside a field declaration or with a non-constant type {ty}', where)
+    return n_force
+
+
+def _merge(old, new):
+    if old is None or old == new:
+        return new
+    return 'always'
 
 
 def _under_if(fn: ast.AST, target: ast.AST, name: str) -> bool:
